@@ -115,7 +115,9 @@ Bump(s0, f, c) ==
     ELSE Bind(BumpProp(a.st, f, c), LAMBDA p : Done(p.st, p.out, a.hit \/ p.hit)))
 
 (* the clock value a bump works from *)
-BumpClock == IF Weaken = "bumpFromStaleClock" /\ clock >= 2 * SPE THEN clock - SPE ELSE clock
+BumpClock == CASE Weaken = "bumpFromStaleClock" /\ clock >= 2 * SPE -> clock - SPE      \* one epoch behind
+               [] Weaken = "bumpFromStaleSlot" /\ clock > SPE       -> clock - 1        \* one slot behind
+               [] OTHER -> clock
 
 (* ekm.AddShare: no-op if the account exists; bump; saveShare = wallet.AddValidatorAccount
    (index entry in memory, SaveAccount, SaveWallet) *)
